@@ -18,14 +18,13 @@ CONSTANTS
   Horizon = 2
   Budgets = {1}
   Kinds = {"sink", "relay", "follower"}
-  Acyclic = TRUE
+  Acyclic = FALSE
   DueFirst = FALSE
   PostRunSetup = FALSE
   Phased = TRUE
   DefVals = {1}
   Sparse = FALSE
-INVARIANTS ExactlyOnce NoStrangers InOrder StackOK ParamsSeen ParamsSeenRunning RowsOK
-PROPERTIES TimeOK Rejected WrongType LockRespected
+INVARIANTS InOrder
 VIEW View
 CONSTRAINT Bound
 CHECK_DEADLOCK FALSE
